@@ -354,6 +354,20 @@ def run(chk):
                     conn.close()
                 continue
             runner.run_case(case)
+        # the key changes while a request's body is still arriving (first latch, rotation, clear): what the host receives is signed
+        # with the key in force when the request is complete and relayed
+        k1 = pipegen.KEY
+        for k, (before, after) in enumerate([(None, k1), (k1, ("77777777-0000-0000-0000-000000000007", "7c" * 32)), (k1, None),
+                                             (("77777777-0000-0000-0000-000000000007", "7c" * 32), k1), (None, k1), (k1, None)]):
+            c_ = pipegen.gen_case(rng, callers, st, dest_label="ws", with_key=True, spoof=(k % 2 == 0))
+            for ep in ("ws", "imds", "hostga"):
+                c_["env"][ep] = None
+            c_["caller"] = callers.caller(0, "curl", True)
+            c_["env"]["key"] = before
+            c_["env_after_head"] = dict(c_["env"], key=after)
+            c_["req"] = dict(c_["req"], method="POST", target="/machine?comp=health&mid=%d" % k, body=bytes(rng.below(256) for _ in range(3000)), chunked=None)
+            chk.count("key_changed_while_the_body_arrived")
+            runner.run_case(c_)
         # the host drops the kept upstream connection after a response; a further request on the same client connection is either
         # not relayed at all or relayed signed like any other
         orc = e2e_oracle_factory(pending)
